@@ -78,5 +78,42 @@ def run(case, agg):
         agg.ok(key, f"ok:{path}", sample={"size": size, "partition": hex(part), "info": hex(info), "caches": nc})
 
 
+def cli_cases(tier):
+    out = []
+    for part, info, caches in ((4096, 65536, 0), (0x10000, 0xFFFC, 1), (0, 0, 16), (305419896, 1234567, 6), (0xE100000, 0xE1EF340, 6)):
+        for style in ("dec", "hex", "HEX", "oct"):
+            out.append({"part": part, "info": info, "caches": caches, "style": style})
+    return out
+
+
+def run_cli(case, agg):
+    """the addresses as a user types them: decimal, 0x.., 0X.., 0o.. (argparse converts with int(x, 0))"""
+    from .. import impl
+    fmt = {"dec": str, "hex": hex, "HEX": lambda v: "0X%X" % v, "oct": lambda v: "0o%o" % v}[case["style"]]
+    data = content(333)
+    with fresh_dir("c16c") as d:
+        inp, sto, dfu = (os.path.join(d, x) for x in ("e.suit", "storage.hex", "dfu.hex"))
+        open(inp, "wb").write(data)
+        rc, so, se = impl.cli(["image", "update", "--input-file", inp, "--storage-output-file", sto, "--dfu-partition-output-file", dfu,
+                               "--update-candidate-info-address", fmt(case["info"]), "--dfu-partition-address", fmt(case["part"]),
+                               "--dfu-max-caches", str(case["caches"])], d)
+        if rc != 0:
+            agg.viol("C16:cli/failed", f"{case}: rc={rc} {se[-300:]}")
+            return
+        try:
+            smem, dmem = refhex.read_hex_file(sto), refhex.read_hex_file(dfu)
+        except refhex.HexError as e:
+            agg.viol("C16:cli/malformed-hex", f"{case}: {e}")
+            return
+    want_rec = struct.pack("<IIII", 0x55AA55AA, 1, case["part"], len(data)) + b"\x00" * (8 * case["caches"])
+    if smem != {case["info"] + i: b for i, b in enumerate(want_rec)}:
+        agg.viol("C16:cli/storage-record", f"{case}: record {[(hex(a), b[:16].hex()) for a, b in refhex.regions(smem)][:2]} expected at {hex(case['info'])}: {want_rec[:16].hex()}")
+    elif dmem != {case["part"] + i: b for i, b in enumerate(data)}:
+        agg.viol("C16:cli/dfu-partition", f"{case}: partition image at {[hex(a) for a, _ in refhex.regions(dmem)][:2]}, expected {hex(case['part'])}")
+    else:
+        agg.ok(h8("c16cli", case), f"ok:cli:{case['style']}", sample=case if case["style"] == "dec" and case["caches"] == 6 else None)
+
+
 def plan(tier):
-    return [CaseStage("update-images", lambda: cases(tier), run, disjoint=True, rule=RULE)]
+    return [CaseStage("update-images", lambda: cases(tier), run, disjoint=True, rule=RULE),
+            CaseStage("cli-address-syntax", lambda: cli_cases(tier), run_cli, rule="real CLI, addresses typed as decimal / 0x / 0X / 0o")]
